@@ -363,6 +363,127 @@ A_SEND = Contract(
 
 A_SEND.comp_src_trigger = True
 
+# ----- ASGI NextResponse.from_app as a whole: an abstract inner application that sends one start message and then n >= 1
+# body messages (the last one ends the body).  The composition over the message sequence is an induction carried out in the
+# application stub: the real closure `send` is executed for the start message, for an ARBITRARY non-final body message k under
+# the induction hypothesis, and for the final one - base, step and conclusion are obligations like any other.
+CAT = z3.Function("cat_upto", z3.IntSort(), z3.StringSort())      # cat_upto(k) = bodies[0] + ... + bodies[k - 1]
+AAPP_T = ObjT("AsgiAppGhost", n_app=Int, status=Int, has_headers=Bool, last_has_more_key=Bool)
+
+
+def _cat_unfold(st, items, k):
+    st.assume(z3.Implies(z3.And(k >= 0, k < items.length), CAT(k + 1) == z3.Concat(CAT(k), items.cols[0][k])))
+
+
+def _body_msg(st, chunk, more, with_more_key=True):
+    d = {"type": VStr("http.response.body"), "body": chunk}
+    if with_more_key:
+        d["more_body"] = VBool(more)
+    return st.alloc(DictObj(d))
+
+
+def asgi_inner_app(ev, args, kwargs, node):
+    """app(request, receive, send) (A-asgi-app): sends http.response.start (status, optionally headers) and then the body
+    messages bodies[0] .. bodies[n-1], more_body true on all but the last (on the last: false or absent)."""
+    USED.add("A-asgi-app")
+    st = ev.st
+    g = st.obj(st.ghost["am"])
+    g.fields["n_app"] = VInt(g.fields["n_app"].t + 1)
+    send = args[2]
+    cid = ev.frame.root().contract.id
+    line = getattr(node, "lineno", 0)
+    bodies = st.obj(st.ghost["bodies"])
+    n = bodies.length
+    start = {"type": VStr("http.response.start"), "status": g.fields["status"]}
+    if st.decide(g.fields["has_headers"].t):
+        start["headers"] = st.ghost["mh"]
+    call_value(ev, send, [st.alloc(DictObj(start))], {}, node)
+    # what the start message established: must survive every body message
+    sc0, hd0 = ev.frame.lookup("status_code"), ev.frame.lookup("headers")
+    hmap0 = st.obj(st.obj(hd0).fields["_dict"])
+    has0, val0 = hmap0.has, hmap0.val[0]
+    cs = st.obj(ev.frame.lookup("body"))
+    buf = st.obj(cs.fields["_buffer"])
+
+    def inv(k):
+        return z3.And(buf.fields["content"].t == CAT(k), buf.fields["pos"].t == z3.Length(buf.fields["content"].t),
+                      z3.Not(cs.fields["_pushed_eof"].t))
+
+    def head_kept():
+        h = ev.frame.lookup("headers")
+        m = st.obj(st.obj(h).fields["_dict"])
+        same = z3.BoolVal(isinstance(h, VRef) and h.oid == hd0.oid)
+        return z3.And(same, ev.frame.lookup("status_code").t == sc0.t, m.has == has0, m.val[0] == val0)
+
+    def havoc_to(k):
+        c = st.fresh(Bytes, "cached")
+        buf.fields["content"] = c
+        buf.fields["pos"] = VInt(z3.Length(c.t))
+        cs.fields["_pushed_eof"] = VBool(False)
+        st.assume(c.t == CAT(k))
+
+    st.assume(CAT(0) == z3.StringVal(""))
+    st.oblige(cid + "/induction.base", inv(z3.IntVal(0)), note="after the start message nothing is cached and the stream is open", line=line)
+    if st.decide(n > 1):
+        k = st.fresh_int("msg_k")
+        st.assume(z3.And(0 <= k, k < n - 1))
+        havoc_to(k)
+        _cat_unfold(st, bodies, k)
+        call_value(ev, send, [_body_msg(st, ev.list_get(bodies, k), True)], {}, node)
+        st.oblige(cid + "/induction.step", inv(k + 1), note="a non-final body message appends exactly its bytes and keeps the stream open", line=line)
+        st.oblige(cid + "/induction.step.head_kept", head_kept(), note="body messages leave status and headers alone", line=line)
+    havoc_to(n - 1)
+    _cat_unfold(st, bodies, n - 1)
+    call_value(ev, send, [_body_msg(st, ev.list_get(bodies, n - 1), False, with_more_key=st.decide(g.fields["last_has_more_key"].t))], {}, node)
+    st.oblige(cid + "/induction.last.head_kept", head_kept(), note="the final body message leaves status and headers alone", line=line)
+    return NONE
+
+
+asgi_inner_app.mods = ("am",)
+
+
+def _spool_ctor(ev, args, kwargs, node):
+    USED.add("A-spool-1")
+    return ev.st.alloc(Obj("SpooledTemporaryFile", {"content": VStr(b""), "pos": VInt(0)}))
+
+
+A_FROM_APP = Contract(
+    id="asgi.NextResponse.from_app", file=AM, qualname="NextResponse.from_app", props=["C20"],
+    params={"cls": Opaque("Class"), "app": TFunc(asgi_inner_app, "app"), "request": ObjT("NextRequest", _receive=Opaque("Receive"))},
+    ghosts={"am": AAPP_T, "mh": List(Tup(Bytes, Bytes)), "bodies": List(Bytes)},
+    requires=["am.n_app == 0", "len(bodies) >= 1"],
+    defs={"unique_at(i)": "forall(j, 0, len(mh), implies(j != i, lower(mh[j][0].decode('latin-1')) != lower(mh[i][0].decode('latin-1'))))",
+          "unclean(s)": "has(s, '\\n') or has(s, '\\r') or has(s, '\\0')"},
+    ufuncs={"cat_upto": ([Int], Bytes)},
+    stubs={"SpooledTemporaryFile": _spool_ctor, "run_in_threadpool": _stubs.run_in_threadpool},
+    stub_methods=SPOOL_STUBS,
+    ghost_modifies=["am"], frame_check=False,
+    raises={"ValueError": "am.has_headers and exists(i, 0, len(mh), unclean(mh[i][0].decode('latin-1')) or unclean(mh[i][1].decode('latin-1')))"},
+    ensures={
+        "app_ran_once": "am.n_app == 1",
+        "status": "result.status_code == am.status",
+        "header_names": "implies(am.has_headers, forall((k, Str), has(result.headers._dict, k) == "
+                        "exists(i, 0, len(mh), lower(mh[i][0].decode('latin-1')) == k)))",
+        "header_values": "implies(am.has_headers, forall(i, 0, len(mh), implies(unique_at(i), "
+                         "result.headers._dict[lower(mh[i][0].decode('latin-1'))] == mh[i][1].decode('latin-1'))))",
+        "no_headers": "implies(not am.has_headers, forall((k, Str), not has(result.headers._dict, k)))",
+        # the cached stream holds exactly the concatenation of all body messages, is closed and rewound: render_stream
+        # (its own contract) then re-emits exactly these bytes
+        "body_bytes": "result.iterable._buffer.content == cat_upto(len(bodies)) and result.iterable._pushed_eof and "
+                      "result.iterable._buffer.pos == 0",
+    },
+    canaries={"nothing_cached": "result.iterable._buffer.content == b''"},
+    assumptions=["A-asgi-app", "A-spool-1", "A-conc-1", "A-abc-1"],
+    notes="the inner application is abstract: a start message and n >= 1 body messages; the induction over the messages is "
+          "carried out in the application stub (base / step for an arbitrary non-final message / final message), each part an "
+          "obligation on the REAL closure `send`, which is executed inline three times",
+)
+A_FROM_APP.comp_src_trigger = True
+AS_INIT = Contract(id="asgi.StreamingResponse.__init__", file="baize/asgi/responses.py", qualname="StreamingResponse.__init__",
+                   inline=True, props=["C20"], notes="3-line constructor, executed inline")
+ACS_INIT = Contract(id="asgi.CachedStream.__init__", file=AM, qualname="CachedStream.__init__", inline=True, props=["C20"],
+                    notes="2-line constructor, executed inline")
+
 # ----- the WSGI middleware wrapper itself: middleware(handler)(app) == wsgi
 NR_T = ObjT(WM + ":NextResponse", status_code=Int, headers=ObjT(MH, _dict=Map(Str, Str)))
 FROM_APP.returns = NR_T
@@ -423,6 +544,67 @@ W_WRAPPER = Contract(
 )
 
 
+# ----- the ASGI middleware wrapper: middleware(handler)(app) == asgi
+ANR_T = ObjT(AM + ":NextResponse", status_code=Int, headers=ObjT(MH, _dict=Map(Str, Str)), iterable=CS_T)
+A_FROM_APP.returns = ANR_T
+
+
+def a_identity_handler(ev, args, kwargs, node):
+    st = ev.st
+    g = st.obj(st.ghost["em"])
+    g.fields["n_handler"] = VInt(g.fields["n_handler"].t + 1)
+    return call_value(ev, args[1], [args[0]], {}, node)
+
+
+a_identity_handler.mods = ("em", "am")
+
+
+def a_next_request_ctor(ev, args, kwargs, node):
+    return ev.st.alloc(Obj("NextRequest", {"_receive": args[1]}))
+
+
+def a_next_response_call(ev, recv, args, kwargs, node):
+    """await response(scope, receive, send): recorded - which response object, with which status, headers and cached body
+    (what a StreamingResponse then emits for them is C05 and render_stream's contract)"""
+    st = ev.st
+    g = st.obj(st.ghost["em"])
+    o = st.obj(recv)
+    g.fields["n"] = VInt(g.fields["n"].t + 1)
+    g.fields["status_code"] = o.fields["status_code"]
+    st.ghost["em_headers"] = o.fields["headers"]
+    st.ghost["em_body"] = o.fields["iterable"]
+    return NONE
+
+
+a_next_response_call.mods = ("em",)
+
+A_WRAPPER = Contract(
+    id="asgi.middleware.asgi", file=AM, qualname="middleware.<locals>.d.<locals>.asgi", props=["C20"],
+    params={"scope": Opaque("Scope"), "receive": Opaque("Receive"), "send": Opaque("Send"),
+            "handler": TFunc(a_identity_handler, "handler"), "app": TFunc(asgi_inner_app, "app")},
+    ghosts=dict(A_FROM_APP.ghosts, em=EM_T, em_headers=ObjT(MH, _dict=Map(Str, Str)), em_body=CS_T),
+    requires=list(A_FROM_APP.requires) + ["em.n == 0 and em.n_handler == 0"],
+    defs=A_FROM_APP.defs, ufuncs=A_FROM_APP.ufuncs,
+    stubs={"NextRequest": a_next_request_ctor},
+    stub_methods={(AM + ":NextResponse", "__call__"): a_next_response_call},
+    ghost_modifies=["am", "em", "em_headers", "em_body"], frame_check=False,
+    raises={"ValueError": A_FROM_APP.raises["ValueError"]},
+    ensures={
+        "inner_app_ran_once": "am.n_app == 1 and em.n_handler == 1",
+        "response_called_once": "em.n == 1",
+        "status_forwarded": "em.status_code == am.status",
+        "headers_forwarded": "implies(am.has_headers, forall((k, Str), has(em_headers._dict, k) == exists(i, 0, len(mh), "
+                             "lower(mh[i][0].decode('latin-1')) == k)) and forall(i, 0, len(mh), implies(unique_at(i), "
+                             "em_headers._dict[lower(mh[i][0].decode('latin-1'))] == mh[i][1].decode('latin-1'))))",
+        "body_forwarded": "em_body._buffer.content == cat_upto(len(bodies)) and em_body._pushed_eof and em_body._buffer.pos == 0",
+    },
+    canaries={"never_calls_the_response": "em.n == 0"},
+    assumptions=["A-asgi-app"],
+    notes="the wrapper that middleware(handler)(app) returns, with an identity handler: from_app enters through its contract; "
+          "calling the response object is recorded (status, header mapping, cached stream)",
+)
+
+
 # ----- view decorators: decorator(handler)(view) == the wrapper `view`
 VG_T = ObjT("ViewGhost", n_view=Int, n_handler=Int)
 
@@ -476,5 +658,5 @@ def register(reg):
         reg.add(c)
     reg.add(FROM_APP)
     reg.add(S_INIT)
-    for c in (CS_PUSH, CS_EOF, CS_NEXT, A_RENDER, A_SEND, W_WRAPPER):
+    for c in (CS_PUSH, CS_EOF, CS_NEXT, A_RENDER, A_SEND, W_WRAPPER, A_FROM_APP, AS_INIT, ACS_INIT, A_WRAPPER):
         reg.add(c)
